@@ -391,6 +391,112 @@ def header_script(decl):
     return out
 
 
+def acc_flow(fn, hdr):
+    """data flow of the accumulating `ReadUInt(int &accumulator)` and of its uses in ReadHeader.
+    Returns (params, next_term, value_term, (init_fv, init_term), targets)"""
+    parms = [c for c in fn.get('inner', []) if c.get('kind') == 'ParmVarDecl']
+    if len(parms) != 1:
+        raise TranslateError('accumulating ReadUInt: expected one parameter')
+    parm = parms[0]
+    pq = parm['type']['qualType'].strip()
+    byref = pq.endswith('&') and 'const' not in pq
+    cty(pq.rstrip('&').strip())
+    g = GuardFn(fn)
+    p0 = 'v_' + parm['name']
+    g.free.append(p0)
+    g.vars[parm['id']] = p0
+    body = [c for c in fn['inner'] if c.get('kind') == 'CompoundStmt'][0]
+    def is_parm_assign(x):
+        if not ((x.get('kind') == 'BinaryOperator' and x.get('opcode') == '=') or x.get('kind') == 'CompoundAssignOperator' or
+                (x.get('kind') == 'UnaryOperator' and x.get('opcode') in ('++', '--'))):
+            return False
+        t = strip(x['inner'][0])
+        return t.get('kind') == 'DeclRefExpr' and t['referencedDecl']['id'] == parm['id']
+    total = len(find_all(body, is_parm_assign))
+    binds, handled, value = [], 0, None
+    for st in body.get('inner', []):
+        st = strip(st)
+        if is_parm_assign(st):
+            if st.get('kind') == 'UnaryOperator':
+                raise TranslateError('accumulating ReadUInt: ++/-- on the accumulator')
+            kr, er = g.expr(st['inner'][1])
+            cur = g.vars[parm['id']]
+            if st.get('kind') == 'BinaryOperator':
+                term = er if kr == 'm' else '(Outcome.ret %s)' % er
+            else:
+                op = st['opcode']
+                arf = {'+=': 'cadd', '-=': 'csub', '*=': 'cmul'}
+                if op not in arf:
+                    raise TranslateError('accumulating ReadUInt: operator %s' % op)
+                t = cty(st['computeResultType']['qualType'])
+                if cty(st['computeLHSType']['qualType']) != t or cty(qual(st)) != t:
+                    raise TranslateError('accumulating ReadUInt: mixed types in %s' % op)
+                if kr == 'm':
+                    term = '(Outcome.bind %s fun r_ => %s %s %s r_)' % (er, arf[op], t, cur)
+                else:
+                    term = '(%s %s %s %s)' % (arf[op], t, cur, er)
+            nm = 'acc%d' % (len(binds) + 1)
+            binds.append((nm, term))
+            g.vars[parm['id']] = nm
+            handled += 1
+        elif st.get('kind') == 'ReturnStmt':
+            kv, ev = g.expr(st['inner'][0])
+            value = ev if kv == 'm' else '(Outcome.ret %s)' % ev
+            for nm, term in reversed(binds):
+                value = '(Outcome.bind %s fun %s => %s)' % (term, nm, value)
+    if handled != total:
+        raise TranslateError('accumulating ReadUInt: the accumulator is assigned inside a nested statement')
+    if value is None:
+        raise TranslateError('accumulating ReadUInt: no top-level return')
+    nxt = '(Outcome.ret %s)' % g.vars[parm['id']]
+    for nm, term in reversed(binds):
+        nxt = '(Outcome.bind %s fun %s => %s)' % (term, nm, nxt)
+    if not byref:
+        # passed by value: the caller's variable keeps its value
+        nxt = '(Outcome.ret %s)' % p0
+    others = [v for v in g.free if v != p0 and (re.search(r'\b%s\b' % v, nxt) or re.search(r'\b%s\b' % v, value))]
+    if len(others) > 1:
+        raise TranslateError('accumulating ReadUInt: reads %s' % others)
+    params = [p0] + (others or ['v_value'])
+    # ---- the calls in ReadHeader
+    calls = []
+    def fc(x, path):
+        if x.get('kind') == 'CXXMemberCallExpr' and len(x.get('inner', [])) == 2:
+            callee = strip(x['inner'][0])
+            if callee.get('name') == 'ReadUInt' and callee.get('referencedMemberDecl') == fn['id']:
+                calls.append((x, path))
+    walk(hdr, fc)
+    if not calls:
+        raise TranslateError('no accumulating ReadUInt call in ReadHeader')
+    ids = set()
+    targets = []
+    for x, path in calls:
+        a = strip(x['inner'][1])
+        while a.get('kind') == 'ImplicitCastExpr':
+            a = strip(a['inner'][0])
+        if a.get('kind') != 'DeclRefExpr' or a['referencedDecl']['kind'] != 'VarDecl':
+            raise TranslateError('accumulating ReadUInt: argument is not a local variable')
+        ids.add(a['referencedDecl']['id'])
+        par = [q for q in path if q.get('kind') == 'BinaryOperator' and q.get('opcode') == '=']
+        tgt = strip(par[-1]['inner'][0]).get('name', '?') if par else '?'
+        targets.append((tgt, a['referencedDecl']['name']))
+    if len(ids) != 1:
+        raise TranslateError('the accumulating ReadUInt calls of ReadHeader use different variables: %s' % targets)
+    vid = ids.pop()
+    refs = find_all(hdr, lambda x: x.get('kind') == 'DeclRefExpr' and x.get('referencedDecl', {}).get('id') == vid)
+    if len(refs) != len(calls):
+        raise TranslateError('the accumulator variable of ReadHeader is used outside the accumulating calls')
+    decl = find_all(hdr, lambda x: x.get('kind') == 'VarDecl' and x.get('id') == vid)
+    if len(decl) != 1 or 'inner' not in decl[0]:
+        raise TranslateError('the accumulator variable of ReadHeader has no initialiser')
+    cty(qual(decl[0]))
+    gh = GuardFn(hdr)
+    fv, e = gh.guard(decl[0]['inner'][-1])
+    if not all(v.startswith('m_') for v in fv):
+        raise TranslateError('initial value of the accumulator reads something that is not a header field: %s' % fv)
+    return params, nxt, value, (fv, e), targets
+
+
 def main():
     repo, out, work = sys.argv[1:4]
     os.makedirs(work, exist_ok=True)
@@ -403,6 +509,7 @@ def main():
     allbounds = {}
     scripts = []
     items = {}
+    accfn = {}
     for filt, want_cls in (('NLReader', ('NLReader',)), ('TextReader', ('TextReader',)), ('BinaryReader', ('BinaryReader', 'BinaryReaderBase'))):
         docs = clang_dump(tu, filt, [os.path.join(repo, 'include'), os.path.join(repo, 'src')])
         spec_of = {}
@@ -428,7 +535,11 @@ def main():
                 rk = 'bin' if targs and 'BinaryReader' in targs[0] else 'text'
                 if 'NLReader' in want_cls and len(targs) > 1 and 'VarBoundHandler' in targs[1]:
                     return
+                if n.get('name') == 'ReadUInt' and specs[-1].get('name') == 'TextReader' and \
+                        len([c for c in n.get('inner', []) if c.get('kind') == 'ParmVarDecl']) == 1:
+                    accfn['fn'] = n
                 if n.get('name') == 'ReadHeader' and specs[-1].get('name') == 'TextReader':
+                    accfn['hdr'] = n
                     hs = header_script(n)
                     if scripts and scripts[0] != hs:
                         raise TranslateError('ReadHeader script differs between instantiations')
@@ -535,6 +646,10 @@ def main():
         raise TranslateError('segment -> item handler mapping not found')
     for k2, (fv, e) in items.items():
         addm(fv)
+    if 'fn' not in accfn or 'hdr' not in accfn:
+        raise TranslateError('accumulating TextReader::ReadUInt(int &) / ReadHeader not found')
+    acc_params, acc_nxt, acc_val, (acc_ifv, acc_ie), acc_targets = acc_flow(accfn['fn'], accfn['hdr'])
+    addm(acc_ifv)
     L.append('/-- the `NLHeader` fields (and the `NLReader` member `num_vars_and_exprs_`) the index bounds read -/')
     L.append('structure Hdr where')
     for v in mfields:
@@ -574,6 +689,22 @@ def main():
     L.append('def segmentHandlers : List (Int × String × String) := [' + ', '.join('(%d, "%s", "%s")' % t for t in segs + kinds) + ']')
     L.append('')
     names += ['itemsOfSegment', 'itemsOfSuffixKind']
+    ps = ' '.join('(%s : Int)' % v for v in acc_params)
+    L.append('/-- `TextReader::ReadUInt(int &accumulator)`: the value the caller\'s variable has after the call (the assignments to')
+    L.append('    the parameter in source order; the parameter itself if it is not a reference) -/')
+    L.append('def acc_next %s : Outcome Int :=\n  %s\n' % (ps, acc_nxt))
+    L.append('/-- `TextReader::ReadUInt(int &accumulator)`: the returned value -/')
+    L.append('def acc_value %s : Outcome Int :=\n  %s\n' % (ps, acc_val))
+    body = acc_ie
+    for v in acc_ifv:
+        body = re.sub(r'\b%s\b' % v, 'h.%s' % v, body)
+    L.append('/-- `TextReader::ReadHeader`: initial value of the variable all accumulating `ReadUInt(..)` calls pass -/')
+    L.append('def acc_init (h : Hdr) : Outcome Int :=\n  %s\n' % body)
+    L.append('/-- (target field, accumulator variable) of the accumulating calls of ReadHeader in source order -/')
+    L.append('def accTargets : List (String × String) := [' + ', '.join('("%s", "%s")' % t for t in acc_targets) + ']')
+    L.append('')
+    names += ['acc_next', 'acc_value', 'acc_init']
+    ptab['acc_next'] = acc_params; ptab['acc_value'] = acc_params; ptab['acc_init'] = acc_ifv
     ptab['itemsOfSegment'] = ['letter']; ptab['itemsOfSuffixKind'] = ['kind']
     L.append('/-- free variables (source names) of every translated definition, in parameter order -/')
     L.append('def paramTable : List (String × List String) := [' + ', '.join('("%s", [%s])' % (n, ', '.join('"%s"' % v for v in ptab[n])) for n in names) + ']')
